@@ -889,7 +889,7 @@ impl Vm {
                     let lhs = self
                         .pop_quantity()
                         .as_scalar()
-                        .expect("Expected factorial operand to be scalar")
+                        .map_err(|e| self.runtime_error(RuntimeErrorKind::QuantityError(e)))?
                         .to_f64();
 
                     let order = self.read_u16();
